@@ -68,6 +68,7 @@ type recw struct {
 	body    []byte
 	infos   []recInfo
 	flushes int
+	last    int // argument of the last WriteHeader call (what an outer WithCodeResponseWriter records); 200 if none
 	sgid    int64
 	sret    *atomic.Bool
 	late    int
@@ -100,6 +101,7 @@ func (w *recw) WriteHeader(code int) {
 	defer w.mu.Unlock()
 	w.note()
 	w.writeHeader(code)
+	w.last = code
 }
 
 func (w *recw) writeHeader(code int) {
@@ -148,7 +150,7 @@ func (w recwF) Flush() {
 }
 
 func newRecw(h0 [][]any, sret *atomic.Bool) *recw {
-	rw := &recw{hdr: http.Header{}, sret: sret}
+	rw := &recw{hdr: http.Header{}, sret: sret, last: 200}
 	for _, kv := range h0 {
 		for _, v := range kv[1].([]any) {
 			rw.hdr.Add(hname(num(kv[0])), hval(num(v)))
@@ -243,6 +245,7 @@ type WOut struct {
 	Body    []int  `json:"body"`
 	Infos   []Info `json:"infos"`
 	Flushes int    `json:"flushes"`
+	Code    int    `json:"code"`    // argument of the last WriteHeader call, 200 if none (the outer middlewares' record)
 	Late    int    `json:"late"`    // real-writer calls after ServeHTTP returned
 	Foreign int    `json:"foreign"` // real-writer calls from another goroutine than ServeHTTP's
 }
@@ -264,6 +267,7 @@ func (w *recw) out() WOut {
 		o.Infos = append(o.Infos, Info{in.code, hs, xs})
 	}
 	o.Flushes = w.flushes
+	o.Code = w.last
 	o.Late, o.Foreign = w.late, w.foreign
 	return o
 }
@@ -459,6 +463,9 @@ type SeqReqOut struct {
 	DlSeenNs int64  `json:"dl_seen_ns"`
 	T0Ns     int64  `json:"t0_ns"` // right before ServeHTTP was called
 	T1Ns     int64  `json:"t1_ns"` // when the handler started
+	// server cases: Code of the real response.WithCodeResponseWriter put in front of the router
+	// (what BreakerHandler / LogHandler / PrometheusHandler read), -1 = none
+	OuterCode int `json:"outer_code"`
 }
 
 type SeqOut struct {
@@ -478,27 +485,32 @@ type SeqOut struct {
 }
 
 type seqReq struct {
-	in       SeqReqIn
-	gate     chan hcmd
-	acks     chan hack
-	rw       *recw
-	sret     atomic.Bool
-	sRet     chan struct{}
-	sPanic   any
-	hStarted chan struct{}
-	hgid     atomic.Int64
-	cancel   context.CancelFunc
-	parent   context.Context
-	started  bool
-	hEnded   bool
-	sSeen    bool
-	dSeen    bool
-	hasDl    bool
-	dlSeen   time.Time
-	t0, t1   time.Time
+	in        SeqReqIn
+	gate      chan hcmd
+	acks      chan hack
+	rw        *recw
+	sret      atomic.Bool
+	sRet      chan struct{}
+	sPanic    any
+	hStarted  chan struct{}
+	hgid      atomic.Int64
+	cancel    context.CancelFunc
+	parent    context.Context
+	started   bool
+	hEnded    bool
+	sSeen     bool
+	dSeen     bool
+	hasDl     bool
+	dlSeen    time.Time
+	t0, t1    time.Time
+	outerCode func() int
 }
 
 const seqHeader = "X-Verif-Req"
+
+// wrapOuter, when set by a driver, puts an outer recording writer in front of the handler for
+// one request and returns it with a reader of its record.
+var wrapOuter func(w http.ResponseWriter) (http.ResponseWriter, func() int)
 
 // runSeqCore drives the case through the handler returned by build(work); target(i)
 // gives the URL path of request i.  ONE handler serves all requests.
@@ -615,6 +627,9 @@ func runSeqCore(c SeqCase, build func(work http.HandlerFunc) (http.Handler, func
 		}
 		sStarted := make(chan struct{})
 		w := asWriter(q.rw, q.in.Fl)
+		if wrapOuter != nil {
+			w, q.outerCode = wrapOuter(w)
+		}
 		go func() {
 			defer func() {
 				q.sPanic = recover()
@@ -737,7 +752,10 @@ loop:
 		}
 	}
 	for _, q := range reqs {
-		o := SeqReqOut{}
+		o := SeqReqOut{OuterCode: -1}
+		if q.outerCode != nil {
+			o.OuterCode = q.outerCode()
+		}
 		switch {
 		case !q.sret.Load():
 			o.SOut = "wait"
